@@ -13,7 +13,7 @@ PROP = {
         "Eq/Ord/Hash/Display/FromStr/serde are functions of the serialization in the model; their tie to std/serde is exercised only in the search phase (harness/src/urlprops.rs)",
     ],
     "assumptions": [
-        "the theorems are about records satisfying the executable invariant wf_b; that parse results and setter results satisfy it is not proved (C03_reachability_statement) - the run reports how many observed records do (wf_b:1 vs wf_b:0) and which operation classes leave it",
+        "the accessor / Position theorems are about records satisfying the executable invariant wf_b; that reached records satisfy it is proved for EVERY parse / join result, file scheme included (C03_parse_reachability) and along the mutators of C06_wf / C06_frame_path (C03_reachability_partial) under HostWf (the display of a non-empty host is non-empty, does not start with ':' or '@' and does not end with '/'; implied by C02's HostRT / HostOK) and, for a base, base_ok (wf_b and a special base is not cannot-be-a-base); the remaining mutators (set_host(Some), quirks setters, path setters on authority-less records) are not proved (C03_reachability_full_statement) - the run reports how many observed records satisfy wf_b (wf_b:1 vs wf_b:0) and which operation classes leave it",
     ],
     "known_classes": [
         "records outside wf_b reached on the pinned tree (all pre-existing, listed in known_findings.json): F-C03-5 host/path setters on an authority-less URL carrying the '/.' marker leave '/.' between host and path; F-C02-3 set_path on an opaque path does not encode '?'/'#'; F-C02-2 set_host(None) / F-C02-8 set_path(\"//x\") on an authority-less URL produce a '//'-leading path without marker",
@@ -21,13 +21,20 @@ PROP = {
     ],
     "theorem_notes": {
         "C03_views": "host_str = Display(host) for IP hosts needs the host text invariant (host slice = canonical text of the host kind), which is part of C02's L1 and is not in wf_b; it is compared by the correspondence (getter 'host' vs 'host_str')",
-        "C03_reachability_statement": "stated, not proved",
+        "C03_reachability_statement": "first statement (no hypothesis on the host functions): FALSE, see C03_reachability_statement_refuted",
+        "C03_reachability_statement_refuted": "full (witness: a host display starting with ':' makes 'a://x' serialize as 'a://:' with a ':' at username_end = host_start; not a defect of the crate, the statement lacked the host hypothesis)",
+        "C03_HostRT_HostWf": "full",
+        "C03_parse_wf": "the non-file half of C03_parse_reachability (kept: proved first, by C03_Reach.v alone)",
+        "C03_parse_reachability": "full for the parser (C03_parse_reachability_statement): EVERY parse_url result - any scheme incl. file with drive letters, with or without base, every kind of relative reference, any input, any encoding override, both build configurations - satisfies wf_b and host_text_ok; hypotheses HostWf on the host functions and base_ok /\\ host_text_ok on a base",
+        "C03_reachability_partial": "PARTIAL: histories of parse / join (any scheme) and of set_fragment, set_query, set_port, set_password, set_username, set_scheme, set_host(None), set_ip_host (outside their known classes), set_path / path_segments_mut sessions on records with an authority keep wf_b /\\ host_text_ok. GAP: set_host(Some), quirks setters, path setters on authority-less records (known classes F-C02-3, F-C02-8, F-C03-5)",
+        "C03_reachable_index": "full (corollary of C03_reachability_partial and C03_index)",
+        "C03_reachability_full_statement": "stated, not proved (all 19 mutators of C02's Reachable; joins against reached bases without the base_ok premise)",
     },
 }
 
 TEXT = {
-    "level": "Machine-checked Coq theorems (5, closed under the global context) for EVERY Url record satisfying the executable structural invariant wf_b and for both build configurations: each of the 16 Positions maps to an in-bounds index (no Index impl can panic), indices are monotone in Position order, all range forms succeed and consecutive ranges re-concatenate to the serialization, and scheme ':' ['//' [username [':' password] '@'] host [':' port]] ['/.'] path ['?' query] ['#' fragment] assembled from the accessors equals the serialization byte for byte; overlapping views (has_authority/has_host/host/host_str/domain/port_or_known_default) agree. The models of the accessors, Position mapping and all mutators are tied to the code by a correspondence run over single steps and histories (record, status, 16 accessors, 10 quirks getters, all Position ranges).",
+    "level": "Machine-checked Coq theorems (closed under the global context) for EVERY Url record satisfying the executable structural invariant wf_b and for both build configurations: each of the 16 Positions maps to an in-bounds index (no Index impl can panic), indices are monotone in Position order, all range forms succeed and consecutive ranges re-concatenate to the serialization, and scheme ':' ['//' [username [':' password] '@'] host [':' port]] ['/.'] path ['?' query] ['#' fragment] assembled from the accessors equals the serialization byte for byte; overlapping views (has_authority/has_host/host/host_str/domain/port_or_known_default) agree. Reachability: EVERY record Parser::parse_url returns (any scheme, file and drive letters included; absolute URLs and every kind of relative reference against a well-formed base, any input, any encoding override) satisfies wf_b, and so does every record reached from such results by the mutators whose invariant preservation C06 proves (C03_parse_reachability, C03_reachability_partial). The models of the accessors, Position mapping and all mutators are tied to the code by a correspondence run over single steps and histories (record, status, 16 accessors, 10 quirks getters, all Position ranges).",
     "design_ref": "DESIGN.md section 8 C03, section 13",
-    "note": "Partial: that every reachable Url satisfies wf_b (parser and setter preservation) is stated (C03_reachability_statement) but not proved; the run measures it on every observed record and lists the (pre-existing, known) classes that leave wf_b. Eq/Ord/Hash/Display/serde agreement is definitional in the model (functions of the serialization) and exercised against std/serde only by the search phase. Trusted: Coq kernel + vm_compute, extraction + OCaml driver, the correspondence generators, IDNA ToASCII answered by the real idna crate (the host model is Model/Host.v).",
+    "note": "Partial: that every reachable Url satisfies wf_b is proved for all parse / join results and along the C06 mutators (hypotheses: HostWf on the host functions, base_ok on a base); set_host(Some), the quirks setters and path setters on authority-less records are not proved (C03_reachability_full_statement); the run measures wf_b on every observed record and lists the (pre-existing, known) classes that leave it. The first reachability statement, without a hypothesis on the host functions, is refuted (C03_reachability_statement_refuted). Eq/Ord/Hash/Display/serde agreement is definitional in the model (functions of the serialization) and exercised against std/serde only by the search phase. Trusted: Coq kernel + vm_compute, extraction + OCaml driver, the correspondence generators, IDNA ToASCII answered by the real idna crate (the host model is Model/Host.v).",
     "technique": "Coq proof over Gallina model of the Url record/accessors + extracted-model/implementation correspondence on histories",
 }
